@@ -142,8 +142,10 @@ def run_verus(path, extra=(), rlimit=None, timeout=1800, use_cache=True):
                           rendered=d.get('rendered')))
     r['diags'] = diags
     r['stderr_tail'] = err[-4000:] if js is None else ''
-    with open(cpath, 'w') as f:
+    tmp = '%s.%d.tmp' % (cpath, os.getpid())
+    with open(tmp, 'w') as f:
         json.dump(r, f)
+    os.replace(tmp, cpath)
     return r
 
 
